@@ -347,8 +347,8 @@ def _comparators(ctx, prog, sorter):
             if isinstance(pc, tuple) and pc[0] == 'call' and cname(pc[1]) == 'PartialOrd::partial_cmp':
                 A, B = strip(pc[2]), strip(pc[3])
                 # template: B with closure param 3 (and *_b locals) renamed to param 2 (and *_a) equals A
-                Bn = _rename_b_to_a(cb, B)
-                An = _rename_b_to_a(cb, A, identity=True)
+                Bn = _rename_b_to_a(cb, _expand_vars(cb, B))
+                An = _rename_b_to_a(cb, _expand_vars(cb, A), identity=True)
                 ok = Bn == An and mir.contains(A, lambda x: x[0] == 'param' and x[1] == 2) and not mir.contains(A, lambda x: x[0] == 'param' and x[1] == 3)
         ctx.check(ok, 'R04.4', key, cb.where(0), cb.path,
                   'the comparator must be cost(a).partial_cmp(cost(b)) with the same cost formula on both sides (ascending order)', found=found, detail=found or '')
@@ -371,18 +371,33 @@ def _comparators(ctx, prog, sorter):
                       'the weighted cost must be prev_distance*(1 - w) + centre_distance*w', found=P.show(lambda a: show(a, maxdepth=3)), detail=P.show(lambda a: show(a, maxdepth=2)))
 
 
+def _expand_vars(cb, t, depth=0):
+    """replace every variable that is assigned on several paths (`let x; if c { x = e1 } else { x = e2 }`) by the set of its
+    alternatives, each with the branch conditions it is assigned under - so two such variables are compared by what they
+    hold, not by what they are called"""
+    def f(x, depth):
+        if not isinstance(x, tuple):
+            return x
+        if x[0] == 'var' and x[1] == cb.path and depth < 4:
+            whole = [d for d in cb.defs().get(x[2], []) if d[4]]
+            if whole:
+                alts = []
+                for d in whole:
+                    conds = tuple(sorted((show(g, maxdepth=6), str(opw.truth(k))) for g, k, sw in cb.guard_terms(d[1])
+                                         if isinstance(strip(g), tuple) and strip(g)[0] in ('bin', 'un', 'call')))
+                    alts.append(('alt', conds, f(cb._def_term(d), depth + 1)))
+                return ('phi',) + tuple(sorted(alts, key=repr))
+        return (x[0],) + tuple(f(y, depth) if isinstance(y, tuple) else y for y in x[1:])
+    return f(t, depth)
+
+
 def _rename_b_to_a(cb, t, identity=False):
-    """rename closure parameter 3 -> 2 and locals named *_b -> *_a (terms are compared after canonicalisation)."""
+    """rename closure parameter 3 -> 2 (terms are compared after canonicalisation)."""
     def f(x):
         if not isinstance(x, tuple):
             return x
         if x[0] == 'param':
             return ('param', 2, 'P') if x[1] in (2, 3) else x
-        if x[0] == 'var':
-            n = x[3]
-            if n.endswith('_b'):
-                n = n[:-2] + '_a'
-            return ('var', x[1], 0, n)
         return (x[0],) + tuple(f(y) if isinstance(y, tuple) else y for y in x[1:])
     return algebra.canon(f(t))
 
